@@ -30,6 +30,8 @@ type PropCheck struct {
 	MaxPaths  int
 	TimeoutMs func(tier string) int
 	NativeRace bool // replay violations under the race detector; a reported data race confirms
+	BoundIsInfo bool // paths cut by the symbolic-branch bound are reported as information (long input-controlled loops), not as inconclusive
+	MaxSymBranches int
 	Explain    string
 }
 
@@ -52,6 +54,7 @@ type CheckCtx struct {
 	T0       time.Time
 	NativeOK int
 	NativeRuns int
+	Info     []string
 	Samples  []interface{}
 }
 
@@ -280,7 +283,7 @@ func (c *CheckCtx) run() int {
 		fns = keep
 	}
 	for _, f := range fns {
-		runs = append(runs, &HarnessRun{Name: f.Pkg.Pkg.Name() + "." + f.Name(), Fn: f, MaxPaths: c.P.MaxPaths})
+		runs = append(runs, &HarnessRun{Name: f.Pkg.Pkg.Name() + "." + f.Name(), Fn: f, MaxPaths: c.P.MaxPaths, MaxSymBranches: c.P.MaxSymBranches})
 	}
 	c.Results = RunAll(c.Eng, runs, c.Workers, timeout)
 
@@ -288,6 +291,19 @@ func (c *CheckCtx) run() int {
 	for _, r := range c.Results {
 		if r.Unsupported > 0 || r.BoundHit > 0 || r.Blocked > 0 {
 			for _, p := range r.Problems {
+				if c.P.BoundIsInfo && p.End == "bound" && strings.Contains(p.Msg, "symbolic branches") {
+					key := "input-controlled loop not explored to its end: " + p.Site
+					seenInfo := false
+					for _, s := range c.Info {
+						if s == key {
+							seenInfo = true
+						}
+					}
+					if !seenInfo {
+						c.Info = append(c.Info, key)
+					}
+					continue
+				}
 				c.Problems = append(c.Problems, fmt.Sprintf("%s: %s: %s @ %s", r.Name, p.End, p.Msg, p.Site))
 			}
 		}
@@ -483,6 +499,9 @@ func (c *CheckCtx) writeEvidence(nviol int) {
 	}
 	if c.P.Explain != "" {
 		cov["explanation"] = c.P.Explain
+	}
+	if len(c.Info) > 0 {
+		cov["information"] = c.Info
 	}
 	for k, v := range c.Extra {
 		cov[k] = v
